@@ -65,10 +65,14 @@ def _obj_pred(st):
     return out
 
 
-def replay_obj(case, Stream, zero_at=None):
-    """zero_at = a lattice temperature value mapped to exactly 0.0 (A0 = -B * zero_at); None = the native offset 50.0."""
+def replay_obj(case, Stream, zero_at=None, fine=False):
+    """zero_at = a lattice temperature value mapped to exactly 0.0 (A0 = -B * zero_at); None = the native offset 50.0.
+    fine = a frame 300 times finer (100 lattice units = 0.003 K): spans far below the library's 0.01 K latent-stream
+    width; only behaviours that never make supply equal target are replayed there (the 0.01 K rule is not scale-free)."""
     hist = case["hist"]
     A0 = 50.0 if zero_at is None else -B * zero_at
+    if fine:
+        return _replay_obj_fine(case, Stream)
     ts, tt, q, d, h = hist[0][1]
     st = Stream("s", t_supply=A0 + B * ts, t_target=A0 + B * tt, heat_flow=C * q, dt_cont=B * d, htc=float(h))
     out = [(c, dict(dd, step=0)) for c, dd in _obj_pred(st)]
@@ -92,12 +96,51 @@ def replay_obj(case, Stream, zero_at=None):
         got = getattr(st, k)
         if (isinstance(v, str) and got != v) or (not isinstance(v, str) and abs(got - v) > 1e-7 * max(1.0, abs(v))):
             drift = f"Stream.{k}: real {got} vs spec {v} after {hist}"
+            if k in ("t_min", "t_max", "type"):
+                # "its temperature span", "its kind": those of the temperatures the caller assigned (the specification's state)
+                out.append(("C19.bounds_follow_assigned_temperatures", dict(attr=k, got=got, expected=v, dead=(st.t_supply == st.t_target))))
     return out, drift
+
+
+def _replay_obj_fine(case, Stream):
+    Bf = B * 0.003
+    hist = case["hist"]
+    ts, tt, q, d, h = hist[0][1]
+    cur = dict(ts=ts, tt=tt)
+    if ts == tt:
+        return [], None
+    st = Stream("s", t_supply=50.0 + Bf * ts, t_target=50.0 + Bf * tt, heat_flow=C * q, dt_cont=Bf * d, htc=float(h))
+    out = []
+    def bounds(step, op):
+        lo, hi = 50.0 + Bf * min(cur["ts"], cur["tt"]), 50.0 + Bf * max(cur["ts"], cur["tt"])
+        kind = "Hot" if cur["ts"] > cur["tt"] else "Cold"
+        if abs(st.t_min - lo) > 1e-9 or abs(st.t_max - hi) > 1e-9 or st.type != kind:
+            out.append(("C19.bounds_follow_assigned_temperatures", dict(step=step, op=op, t_min=st.t_min, t_max=st.t_max, kind=st.type,
+                                                                         assigned=[50.0 + Bf * cur["ts"], 50.0 + Bf * cur["tt"]], frame="fine")))
+    out += [(c, dict(dd, step=0, frame="fine")) for c, dd in _obj_pred(st)]
+    bounds(0, "init")
+    for i, (name, v) in enumerate(hist[1:], 1):
+        if name in ("t_supply", "t_target"):
+            cur["ts" if name == "t_supply" else "tt"] = v
+            if cur["ts"] == cur["tt"]:
+                return out, None          # the isothermal rule takes over: not replayed in this frame
+            setattr(st, name, 50.0 + Bf * v)
+        elif name == "heat_flow":
+            st.heat_flow = C * v
+        elif name == "dt_cont":
+            st.dt_cont = Bf * v
+        elif name == "htc":
+            st.htc = float(v)
+        elif name == "set_heat_flow":
+            st.set_heat_flow(C * v)
+        out += [(c, dict(dd, step=i, op=name, frame="fine")) for c, dd in _obj_pred(st)]
+        bounds(i, name)
+    return out, None
 
 
 def kf_dead(v, f):
     """KF-C19-dead: the stream is in the zero-duty equal-temperature state (t_supply == t_target)."""
-    return bool(v.detail.get("dead")) and v.clause in ("C19.cp_times_span_is_duty", "C19.shift_by_kind")
+    return bool(v.detail.get("dead")) and v.clause in ("C19.cp_times_span_is_duty", "C19.shift_by_kind", "C19.bounds_follow_assigned_temperatures")
 
 
 def keystr(k):
@@ -207,8 +250,11 @@ def check(prop, tier, run: Run, replay_case=None):
         for case in res.cases:
             # every behaviour twice: native offset, and a frame in which one lattice temperature is exactly 0.0
             z = rnd.choice(tvals)
-            for zero_at in (None, z):
-                out, drift = replay_obj(case, Stream, zero_at)
+            for zero_at in (None, z, "fine"):
+                try:
+                    out, drift = replay_obj(case, Stream, None if zero_at == "fine" else zero_at, fine=(zero_at == "fine"))
+                except Exception as e:        # constructors and setters are total on this domain
+                    out, drift = [("C19.raises", dict(exc=repr(e)[:200], frame=str(zero_at)))], None
                 run.cov["evaluations"] += 1
                 run.cov["traces_validated_against_impl"] += 1
                 for clause, d in out:
